@@ -72,6 +72,18 @@ class Graph:
             stack.extend(args)
         return ins
 
+    def ancestors(self, roots):
+        """set of node ids reachable from the given roots (the roots included)"""
+        seen = set()
+        stack = [r for r in roots if r is not None]
+        while stack:
+            n = stack.pop()
+            if n in seen:
+                continue
+            seen.add(n)
+            stack.extend(self.nodes[n][1])
+        return seen
+
     def size(self, roots):
         seen = set()
         stack = [r for r in roots if r is not None]
